@@ -101,6 +101,8 @@ def _vec_ok(got, want, n):
 
 
 def r_translators(ctx):
+    if getattr(ctx, "_translators_done", None) is not None:
+        return ctx._translators_done
     repo = ctx.repo
     mod = repo.module("PEPit/tools/expressions_to_matrices.py")
     dense = mod.functions.get("expression_to_matrices")
@@ -209,6 +211,7 @@ def r_translators(ctx):
         ctx.ob("R-TRANSLPROG", "%s::a key of another kind" % fn0.name, raised,
                "a decomposition key of another kind raises" if raised else "a decomposition key that is a lone point is silently ignored / accepted", loc(fn0, fn0))
     ctx.count("translator programs unrolled", 2 * n)
+    ctx._translators_done = 2 * n
     return 2 * n
 
 
